@@ -27,7 +27,7 @@ DRIFT_PARAM = {
     "LinearFourRates": ("detect_level", [0.98, 0.8, 0.5, 0.2, 0.05, 0.01]),   # levels above 1/2: the bounds cross, every tested sample alarms
     "KdqTreeStreaming": ("alpha", [0.9, 0.5, 0.2, 0.05, 0.01]),
     "KdqTreeBatch": ("alpha", [0.9, 0.5, 0.2, 0.05, 0.01]),
-    "NNDVI": ("alpha", [0.9, 0.5, 0.3, 0.1, 0.01, 0.001]),
+    "NNDVI": ("alpha", [0.99, 0.9, 0.7, 0.5, 0.3, 0.1, 0.01, 0.001]),
     "HDDDM": None, "CDBD": None,   # handled per statistic below
 }
 WARN_PARAM = {   # (parameter, menu from strict warning to loose warning)
@@ -120,7 +120,7 @@ def run(ctx):
             hist = fam.history(crng, cfg, n)
             if name in ("HDDDM", "CDBD"):
                 if cfg["statistic"] == "tstat":
-                    par, menu = "significance", [0.5, 0.2, 0.05, 0.01, 0.001]
+                    par, menu = "significance", [0.9, 0.5, 0.2, 0.05, 0.01, 0.001, 0.0]
                 else:
                     par, menu = "significance", [0.0, 0.5, 1.0, 2.0, 4.0]
             else:
@@ -129,6 +129,15 @@ def run(ctx):
             loose, strict = dict(cfg), dict(cfg)
             loose[par], strict[par] = menu[i], menu[j]
             check_pair(ctx, fam, loose, strict, par, hist, (name, k))
+            # and a pair with an end of the menu (the loosest or the strictest legal value: 0, 1, levels beyond 1/2), where
+            # defaults-on-falsy, folded quantiles and clamped thresholds show
+            e = 0 if k % 2 == 0 else len(menu) - 1
+            o = int(crng.integers(1, len(menu))) if e == 0 else int(crng.integers(0, len(menu) - 1))
+            i2, j2 = min(e, o), max(e, o)
+            if (i2, j2) != (i, j):
+                loose, strict = dict(cfg), dict(cfg)
+                loose[par], strict[par] = menu[i2], menu[j2]
+                check_pair(ctx, fam, loose, strict, par, hist, (name, k, "end"))
             if name in WARN_PARAM:
                 wpar, wmenu = WARN_PARAM[name]
                 i = int(crng.integers(0, len(wmenu) - 1)); j = int(crng.integers(i + 1, len(wmenu)))
